@@ -226,7 +226,17 @@ func c17Read(out *core.Out, c *ws.Conn, exp []Ev, st *Stream, d map[string]inter
 			}
 		}
 	}()
+	if mode == 1 {
+		// a generous read limit, and an application that looks at the underlying connection
+		// between reads (both are plain accessors as far as the stream is concerned)
+		c.SetReadLimit(1 << 20)
+	}
 	for i := 0; ; i++ {
+		if mode == 1 {
+			_ = c.NetConn()
+			_ = c.UnderlyingConn()
+			_ = c.LocalAddr()
+		}
 		t, p, err := c.ReadMessage()
 		if err != nil {
 			lastErr = err
